@@ -170,5 +170,141 @@ class BuildOptimizeOr(Builds):
         return [b('ElseIf', a['left'], a['right']), b('Union', a['left'], a['right'])]
 
 
-CONTRACTS = [BuildNot, BuildAnd, BuildOr, BuildFlatten, BuildConcatenate, BuildForAll, BuildEntity, BuildSetOf, BuildAn,
+class PropertiesToTree(Builds):
+    """symbolic.properties_to_expression_tree(var, properties): one equality `var.<field> == value` per given field - every
+    field, whatever its value (None and falsy values are values) -, the single one as it is, several chained by AND, none
+    dropped (C13)"""
+    qual = 'symbolic:properties_to_expression_tree'
+    props = ('C13',)
+    nfields = (0, 1, 2, 3)
+
+    def setup(self, eng):
+        sts = []
+        for k in self.nfields:
+            st = State()
+            st.locals['var'] = Obj('arg', {'tag': 'var'})
+            st.locals['properties'] = Obj('pymap', {'items': [(C(f"f{i + 1}"), Obj('arg', {'tag': f"v{i + 1}"})) for i in range(k)]})
+            st.ghost['k'] = k
+            st.path.append(f"fields={k}")
+            sts.append(st)
+        return sts
+
+    def with_stmt(self, eng, st, s):
+        # `with symbolic_mode():` - the block builds expressions; the manager itself has its own contract (C08)
+        return eng.exec_block(s.body, st)
+
+    def f_getattr(self, eng, st, args, kwargs, node):
+        o, nm = args[0], args[1]
+        if isinstance(o, Obj) and o.kind == 'arg' and isinstance(nm, C):
+            return [(st, Obj('built', {'fn': 'attr', 'args': [o, nm], 'kwargs': {}}))]
+        return super().f_getattr(eng, st, args, kwargs, node)
+
+    def compare(self, eng, st, op, a, b_):
+        if isinstance(a, Obj) and a.kind == 'built' and a.data['fn'] == 'attr' and isinstance(op, ast.Eq):
+            return Obj('built', {'fn': 'eq', 'args': [a, b_], 'kwargs': {}})
+        if isinstance(a, Obj) and a.kind == 'arg' and isinstance(op, (ast.Is, ast.IsNot, ast.Eq, ast.NotEq)):
+            # the value of a field is arbitrary: any test on it may go either way
+            return ZV(z3.FreshConst(Z.B, 'value_test'), 'bool')
+        return super().compare(eng, st, op, a, b_) if hasattr(super(), 'compare') else None
+
+    def obj_truth(self, eng, st, v):
+        if v.kind == 'arg':
+            return z3.FreshConst(Z.B, 'value_truthy')
+        return None
+
+    def getattr(self, eng, st, recv, name):
+        if isinstance(recv, Obj) and recv.kind == 'built' and recv.data['fn'] == 'eq' and name == 'left':
+            return [(st, recv.data['args'][0])]
+        if isinstance(recv, Obj) and recv.kind == 'pymap':
+            return [(st, Meth(recv, name))]
+        return super().getattr(eng, st, recv, name)
+
+    def on_exit(self, eng, o):
+        k = o.st.ghost['k']
+        if o.sig != RETURN or not isinstance(o.val, Tup) or len(o.val.items) != 2:
+            eng.oblige(o.st, "C13/properties/returns-expression-and-attributes", z3.BoolVal(False))
+            return
+        expr, attrs = o.val.items
+        eqs = [b('eq', b('attr', 'var', const(f"f{i + 1}")), f"v{i + 1}") for i in range(k)]
+        if k == 0:
+            ok = isinstance(expr, C) and expr.v is None
+        elif k == 1:
+            ok = term(expr) == eqs[0]
+        else:
+            ok = term(expr) == b('chained_logic', const('AND'), ('*', ('seq',) + tuple(eqs)))
+        eng.oblige(o.st, "C13/properties/one-equality-per-given-field-none-dropped", z3.BoolVal(bool(ok)), got=repr(term(expr)))
+        ok2 = isinstance(attrs, Lst) and [term(x) for x in attrs.items] == [b('attr', 'var', const(f"f{i + 1}")) for i in range(k)]
+        eng.oblige(o.st, "C13/properties/attribute-expressions-returned-in-order", z3.BoolVal(bool(ok2)))
+
+
+class BuildLet(Builds):
+    """entity.let(type_, domain, name): a variable over exactly the supplied domain whenever one is supplied - also an empty
+    or otherwise falsy one -, and over the registry only when none is (C13, C14)"""
+    qual = 'entity:let'
+    props = ('C13', 'C14')
+
+    def modenv(self):
+        env = super().modenv()
+        env['From'] = C(Ref('func', 'From'))
+        env['symbols_registry'] = Obj('pylist', {})
+        env['ValueError'] = C(Ref('class', 'ValueError'))
+        return env
+
+    def setup(self, eng):
+        sts = []
+        for given in (False, True):
+            for named in (False, True):
+                st = State()
+                st.locals['type_'] = C(Ref('func', 'TYPE'))
+                st.locals['domain'] = Obj('arg', {'tag': 'domain'}) if given else NONE
+                st.locals['name'] = Obj('arg', {'tag': 'name'}) if named else NONE
+                st.ghost['given'] = given
+                st.ghost['named'] = named
+                st.ghost['named_as'] = None
+                st.path.append(f"domain {'given' if given else 'not given'}, name {'given' if named else 'not given'}")
+                sts.append(st)
+        return sts
+
+    def with_stmt(self, eng, st, s):
+        return eng.exec_block(s.body, st)
+
+    def f_any(self, eng, st, args, kwargs, node):
+        return [(st, TRUE)]        # precondition: the type is a registered @symbol class
+
+    def compare(self, eng, st, op, a, b_):
+        if isinstance(a, Obj) and a.kind == 'arg' and isinstance(b_, C) and b_.v is None and isinstance(op, (ast.Is, ast.IsNot)):
+            return C(isinstance(op, ast.IsNot))       # a supplied argument is not None
+        return super().compare(eng, st, op, a, b_) if hasattr(super(), 'compare') else None
+
+    def obj_truth(self, eng, st, v):
+        if v.kind == 'arg':
+            return z3.FreshConst(Z.B, 'argument_truthy')      # a supplied domain may be empty / falsy
+        return None
+
+    def call(self, eng, st, f, args, kwargs, node):
+        if isinstance(f, C) and isinstance(f.v, Ref) and f.v.name in ('TYPE', 'From'):
+            return [(st, Obj('built', {'fn': f.v.name, 'args': list(args), 'kwargs': dict(kwargs)}))]
+        return super().call(eng, st, f, args, kwargs, node)
+
+    def setattr(self, eng, st, recv, name, v):
+        if isinstance(recv, Obj) and recv.kind == 'built' and name == '_name__':
+            st = st.clone()
+            st.ghost['named_as'] = v
+            return [st]
+        return None
+
+    def on_exit(self, eng, o):
+        st = o.st
+        if o.sig != RETURN:
+            eng.oblige(st, "C13/let/returns", z3.BoolVal(False))
+            return
+        want = b('TYPE', b('From', 'domain')) if st.ghost['given'] else b('TYPE')
+        eng.oblige(st, "C13/let/variable-over-exactly-the-supplied-domain-registry-only-when-none-is-supplied",
+                   z3.BoolVal(term(o.val) == want), got=repr(term(o.val)))
+        na = st.ghost['named_as']
+        eng.oblige(st, "C13/let/name-is-set-exactly-when-given",
+                   z3.BoolVal((na is not None and term(na) == 'name') if st.ghost['named'] else na is None))
+
+
+CONTRACTS = [PropertiesToTree, BuildLet, BuildNot, BuildAnd, BuildOr, BuildFlatten, BuildConcatenate, BuildForAll, BuildEntity, BuildSetOf, BuildAn,
              BuildThe, BuildInfer, BuildOptimizeOr]
